@@ -257,6 +257,26 @@ class URLFetchingError(IOError):
     """Some error happened when fetching an URL."""
 
 
+class FetchedStream:
+    """File object given by an URL fetcher, failing with URLFetchingError."""
+
+    def __init__(self, file_obj):
+        self._file_obj = file_obj
+
+    def __getattr__(self, name):
+        if name == '_file_obj':
+            raise AttributeError(name)
+        return getattr(self._file_obj, name)
+
+    def read(self, *args, **kwargs):
+        try:
+            return self._file_obj.read(*args, **kwargs)
+        except Exception as exception:
+            # Error raised by the stream itself, whatever its class: the
+            # content of the resource could not be fetched.
+            raise URLFetchingError(f'{type(exception).__name__}: {exception}')
+
+
 @contextlib.contextmanager
 def fetch(url_fetcher, url):
     """Call an url_fetcher, fill in optional data, and clean up."""
@@ -267,8 +287,9 @@ def fetch(url_fetcher, url):
     result.setdefault('redirected_url', url)
     result.setdefault('mime_type', None)
     if 'file_obj' in result:
+        file_obj = result['file_obj']
         try:
-            yield result
+            yield {**result, 'file_obj': FetchedStream(file_obj)}
         except URLFetchingError:
             raise
         except (EOFError, HTTPException, OSError, zlib.error) as exception:
@@ -276,7 +297,7 @@ def fetch(url_fetcher, url):
             raise URLFetchingError(f'{type(exception).__name__}: {exception}')
         finally:
             try:
-                result['file_obj'].close()
+                file_obj.close()
             except Exception:  # pragma: no cover
                 # May already be closed or something.
                 # This is just cleanup anyway: log but make it non-fatal.
